@@ -49,7 +49,9 @@ func summaryReport(cx *Ctx, r *ev.Report, classes map[string]bool) {
 // writes); everything else unchanged.
 func c01(cx *Ctx, r *ev.Report) {
 	n := armObligations(cx, r, armSelection{prop: "C01", rule: "SUMMARY-EQ(arm): state + writes + order of accesses that can touch the same cell", keyPart: "effect",
-		diffKeep: func(a *engine.ArmResult, d engine.Diff) bool { return isStateLike(d) || isWriteEvent(d) || d.Cat == "order" }})
+		diffKeep: func(a *engine.ArmResult, d engine.Diff) bool {
+			return isStateLike(d) || isWriteEvent(d) || d.Cat == "order"
+		}})
 	r.Analysed["arms_selected"] = n
 	// catalogue: every documented encoding has an arm
 	for _, a := range cx.Arms() {
@@ -101,7 +103,9 @@ var c02Classes = classSet("alu8", "rotA", "rot", "bit")
 
 func c02(cx *Ctx, r *ev.Report) {
 	n := armObligations(cx, r, armSelection{prop: "C02", rule: "SUMMARY-EQ(arm): 8-bit ALU/rotate/bit result and flags", keyPart: "value+flags", classes: c02Classes,
-		diffKeep: func(a *engine.ArmResult, d engine.Diff) bool { return isStateLike(d) || isWriteEvent(d) || d.Cat == "order" }})
+		diffKeep: func(a *engine.ArmResult, d engine.Diff) bool {
+			return isStateLike(d) || isWriteEvent(d) || d.Cat == "order"
+		}})
 	r.Analysed["arms_selected"] = n
 	r.AddFloor("alu_rotate_bit_arms", n, 559)
 	c02Uniform(cx, r)
@@ -114,7 +118,9 @@ var c03Classes = classSet("arith16", "incdec16")
 
 func c03(cx *Ctx, r *ev.Report) {
 	n := armObligations(cx, r, armSelection{prop: "C03", rule: "SUMMARY-EQ(arm): 16-bit arithmetic result and flags", keyPart: "value+flags", classes: c03Classes,
-		diffKeep: func(a *engine.ArmResult, d engine.Diff) bool { return isStateLike(d) || isWriteEvent(d) || d.Cat == "order" }})
+		diffKeep: func(a *engine.ArmResult, d engine.Diff) bool {
+			return isStateLike(d) || isWriteEvent(d) || d.Cat == "order"
+		}})
 	r.Analysed["arms_selected"] = n
 	r.AddFloor("arith16_arms", n, 32)
 	stepGlue(cx, r, "C03")
@@ -126,7 +132,9 @@ var c04Classes = classSet("jump", "call", "ret", "stack", "retint")
 
 func c04(cx *Ctx, r *ev.Report) {
 	n := armObligations(cx, r, armSelection{prop: "C04", rule: "SUMMARY-EQ(arm): control transfer, condition, stack traffic", keyPart: "control", classes: c04Classes,
-		diffKeep: func(a *engine.ArmResult, d engine.Diff) bool { return isStateLike(d) || isBusEvent(d) || d.Cat == "order" }})
+		diffKeep: func(a *engine.ArmResult, d engine.Diff) bool {
+			return isStateLike(d) || isBusEvent(d) || d.Cat == "order"
+		}})
 	r.Analysed["arms_selected"] = n
 	r.AddFloor("control_arms", n, 58)
 	c04Compose(cx, r)
@@ -150,7 +158,7 @@ func c05(cx *Ctx, r *ev.Report) {
 	} else {
 		ruleS := "EVENTS-EQ(step row): the guarded multiset of Memory/IO calls made by (*CPU).Step outside the decoder equals the reference decision table's on the row's pre-states"
 		for _, row := range sa.rows {
-			ds := diffStrings(cx.E.CompareUnder(sa.impl, sa.ref, row.pred), func(d engine.Diff) bool { return isBusEvent(d) || eventKind(d) == isa.KindExec })
+			ds := diffStrings(cx.E.CompareUnder(sa.impl, sa.ref, row.pred), func(d engine.Diff) bool { return isBusEvent(d) || eventKind(d) == isa.KindExec || d.Cat == "order" })
 			r.Check(len(ds) == 0, "C05/step/row="+row.name, ruleS, cx.P.Pos(cx.E.Step.Pos()), "summary-equality", ds...)
 		}
 		ruleI := "EVENTS-EQ(IM0 instr): a mode-0 RST p / CALL nn is fetched entirely from the request's data (no read of program memory) and makes no port access; its pushes are compared under C07 (known finding F3)"
@@ -160,7 +168,7 @@ func c05(cx *Ctx, r *ev.Report) {
 				r.Undecide(key, ruleI, cx.P.Pos(cx.E.Step.Pos()), ic.und.Error())
 				continue
 			}
-			ds := diffStrings(ic.diffs, func(d engine.Diff) bool { return isBusEvent(d) && eventKind(d) != isa.KindMemSet })
+			ds := diffStrings(ic.diffs, func(d engine.Diff) bool { return isBusEvent(d) && eventKind(d) != isa.KindMemSet || d.Cat == "order" })
 			r.Check(len(ds) == 0, key, ruleI, cx.P.Pos(cx.E.Step.Pos()), "summary-equality", ds...)
 		}
 	}
